@@ -6,6 +6,7 @@ import c02
 
 CONFIGS = ['prod', 'testutils']
 EXPLANATION = (
+    'ST: the provided put_with_ctx / multi_put_with_ctx of the Storage trait, which all three bundled backends inherit, call the backend\'s own put / multi_put once with the caller\'s keyspace and documents and return its result unchanged. '
     'MSEM: every Storage method of the in-memory backend interpreted per (keyspace, key) abstract pre-state against the reference key-value model. '
     'Decided clauses: B1 SQLite statement/parameter agreement — every StorageHandle call binds a tuple whose arity equals the number of `?` '
     'in the statement it names, and all call sites of one statement bind the same tuple type; B2 the in-memory backend creates the keyspace '
@@ -452,6 +453,9 @@ def check(ctx):
     import memstore_abs
     if not memstore_abs.check_memstore(ctx, tu, 'C17.MSEM'):
         check_B2(ctx, tu)
+    # ST: the provided *_with_ctx methods every bundled backend inherits forward to the backend's own method and return its answer (storage_abs)
+    import storage_abs
+    storage_abs.check_defaults(ctx, prod, 'C17.ST')
     check_B3(ctx, prod, tu)
     check_B4(ctx, prod)
     check_B5(ctx, prod)
